@@ -709,29 +709,42 @@ def _post_pre(run, P):
                     and isinstance(v.args[0], ast.Name) \
                     and "NullASTNode" in ast.unparse(v.args[1]):
                 roles[s.targets[0].id] = ("isnull", v.args[0].id)
-    rets = [(s, _enclosing_test(f.node, s)) for s in func_body_stmts(f.node)
+    from .util import path_conditions
+    rets = [s for s in func_body_stmts(f.node)
             if isinstance(s, ast.Return) and isinstance(s.value, ast.Call)
             and dotted(s.value.func) == "IfThen"]
-    if len(rets) != 2:
+    if len(rets) < 2:
         raise AnalysisError("ASTPostSimplifyMapper.map_IfThenElse: two IfThen returns expected")
-    for s, test in rets:
+    aliases = {}
+    for s in ast.walk(f.node):
+        if isinstance(s, ast.Assign) and len(s.targets) == 1 and isinstance(s.targets[0], ast.Name) \
+                and isinstance(s.value, ast.Attribute) and s.value.attr == "condition":
+            aliases[s.targets[0].id] = s.value
+    seen_arms = set()
+    for s in rets:
         slots = _ctor_args(P, s.value, "IfThen")
         cond, body = slots.get("condition"), slots.get("then")
         negated = isinstance(cond, ast.Call) and dotted(cond.func) == "LogicalNot"
         base = cond.args[0] if negated else cond
-        base_ok = isinstance(base, ast.Attribute) and base.attr == "condition"
+        if isinstance(base, ast.Name) and base.id in aliases:
+            base = aliases[base.id]
+        base_ok = isinstance(base, ast.Attribute) and base.attr == "condition" \
+            and dotted(base.value) == f.params[1]
         body_role = roles.get(body.id) if isinstance(body, ast.Name) else None
-        # which arm is null under this test?
+        # which arm is null on the path to this return?
         null_arm = None
-        if isinstance(test, ast.Name) and roles.get(test.id, ("",))[0] == "isnull":
-            null_var = roles[test.id][1]
-            null_arm = roles.get(null_var, (None, None))[1]
+        for t, v in path_conditions(f.node, s):
+            if v and roles.get(t, ("",))[0] == "isnull":
+                null_arm = roles.get(roles[t][1], (None, None))[1]
         ok = base_ok and body_role is not None and null_arm is not None and (
             (null_arm == "then" and negated and body_role[1] == "else_") or
             (null_arm == "else_" and not negated and body_role[1] == "then"))
+        seen_arms.add(null_arm)
         run.ob("C06.post", f, s, ok,
-               construct=f"{norm(s)} when the {null_arm} arm is null",
-               why="dropping an empty arm must keep the polarity of the remaining one")
+               construct=f"{norm(s, 90)} when the {null_arm} arm is null",
+               why="dropping an empty arm must keep the polarity of the remaining one: the "
+                   "condition is expr.condition itself, or LogicalNot of it (flipping a "
+                   "comparison operator instead is not the same test for NaN operands)")
     g = P.func(f"{MOD}.ASTPreSimplifyMapper.map_IfThen")
     rets = [s for s in func_body_stmts(g.node) if isinstance(s, ast.Return)]
     ok = False
